@@ -297,7 +297,7 @@ Lemma newfb_inv st w h bpp seed :
 Proof.
   intros HI Hw Hh Hb.
   apply (step_inv st (OpNewFB w h bpp seed) _ [] HI Logic.I).
-  cbn [step]. replace ((0 <? w) && (0 <? h) && ((bpp =? 1) || (bpp =? 2) || (bpp =? 4))) with true by lia.
+  unfold step. cbn [op_target step0]. replace ((0 <? w) && (0 <? h) && ((bpp =? 1) || (bpp =? 2) || (bpp =? 4))) with true by lia.
   reflexivity.
 Qed.
 
@@ -367,7 +367,8 @@ Lemma setdesktop_state_size st c w h ns hookres st' out :
   step st (OpSetDesktopSize c w h ns hookres) = Some (st', out) ->
   sW st' = sW st /\ sH st' = sH st /\ sBpp st' = sBpp st /\ sFB st' = sFB st /\ out = [].
 Proof.
-  cbn [step]. destruct (c <? length (sClients st))%nat; [|discriminate].
+  unfold step. cbn [op_target]. destruct (live_at st c); [|discriminate]. cbn [step0].
+  destruct (c <? length (sClients st))%nat; [|discriminate].
   destruct (ns =? 0); intros Hs; inversion Hs; clear Hs; [repeat split|destruct st; repeat split].
 Qed.
 
@@ -451,3 +452,51 @@ Proof.
   split; [reflexivity|]. split; [vm_compute; reflexivity|]. vm_compute. reflexivity.
 Qed.
 
+
+(* ------------------------------------------------------------------ closed, not yet reaped *)
+(* FULL STATEMENT (refuted on HEAD 97f9e93, regression of fix 08f23bc): reaping closed clients
+   (rfbClientConnectionGone) never touches freed memory, i.e. [step st OpReap] never fails.
+   Witness: a scaled client is closed (rfbCloseClient: sock = -1, still in the client list), the
+   application installs a new framebuffer BEFORE the next rfbProcessEvents: the re-pointing loop of
+   rfbNewFramebuffer uses rfbGetClientIterator, which skips closed clients, the stale scaled screen
+   is freed, and the reaping then does cl->scaledScreen->scaledScreenRefCount-- on it. *)
+Definition f12c_ops : list op :=
+  [OpSetCursor None; OpAddClient; OpSetEncodings 0 false true true false; OpSetScale 0 2; OpSend 0;
+   OpClose 0; OpNewFB 24 16 4 7].
+
+Lemma reap_dangling_after_newfb :
+  exists st, run (init_state 12 8 4) f12c_ops = Some st /\ Inv st /\ step st OpReap = None.
+Proof.
+  destruct (run (init_state 12 8 4) f12c_ops) as [st|] eqn:E; [|vm_compute in E; discriminate].
+  exists st. split; [reflexivity|]. split.
+  - apply (run_inv f12c_ops (init_state 12 8 4) st); [apply init_inv; lia| |exact E].
+    unfold f12c_ops.
+    repeat (split; [first [exact Logic.I | solve [cbn; repeat split; lia]] |
+                    let st' := fresh "st" in let out := fresh "out" in let Hs := fresh "Hs" in
+                    intros st' out Hs; vm_compute in Hs; inversion Hs; subst; clear Hs]).
+    exact Logic.I.
+  - vm_compute in E. inversion E; subst. vm_compute. reflexivity.
+Qed.
+
+(* the provable part: reaping only fails in that situation *)
+Lemma reap_partial st :
+  existsb cDangling (sClients st) = false -> exists st', step st OpReap = Some (st', []).
+Proof.
+  intros H. unfold step. cbn [op_target step0]. rewrite H. eexists. reflexivity.
+Qed.
+
+(* closing and reaping do not disturb anybody else: the other clients' records are untouched *)
+Lemma close_only_flag st c st' out :
+  step st (OpClose c) = Some (st', out) ->
+  out = [] /\ sW st' = sW st /\ sH st' = sH st /\ sFB st' = sFB st /\ sExt st' = sExt st /\
+  length (sClients st') = length (sClients st).
+Proof.
+  unfold step. cbn [op_target]. destruct (live_at st c); [|discriminate]. cbn [step0].
+  destruct (upd_nth c (sClients st) _) as [[l m]|] eqn:Eu; [|discriminate]. intros Hs; inversion Hs; subst.
+  assert (Hlen : forall n (l0 l1 : list client) m0 f,
+             (forall a, exists a', f a = Some (a', None)) -> upd_nth n l0 f = Some (l1, m0) -> length l1 = length l0).
+  { induction n as [|n IH]; intros l0 l1 m0 f Hf Hu; destruct l0 as [|a t]; cbn in Hu; try discriminate.
+    - destruct (f a) as [[a' m']|]; [|discriminate]. inversion Hu; reflexivity.
+    - destruct (upd_nth n t f) as [[t' m']|] eqn:E; [|discriminate]. inversion Hu; subst. cbn. f_equal. eapply IH; eauto. }
+  destruct st; cbn. repeat split. eapply Hlen; [|exact Eu]. intros a. eexists. reflexivity.
+Qed.
